@@ -139,10 +139,32 @@ def cuts(script, s, how=("vanish",)):
     out = []
     for k in range(1, len(script) + 1):
         for h in how:
-            end = [["vanish", s]] if h == "vanish" else [["vanish", s, "all"]] if h == "vanishall" else [["srvclose"]]
+            end = {"vanish": [["vanish", s]], "vanishall": [["vanish", s, "all"]], "reset": [["vanish", s, "reset"]]}.get(h, [["srvclose"]])
             out.append(script[:k] + end)
     return out
 
 
 def count_backend_calls(result):
     return sum(1 for e in result["trace"] if e["ev"] in ("FsQuery", "FsMut", "FsFile"))
+
+
+def observer_family():
+    """A second session of the same user looks at (MLST / LIST / MLSD) or downloads a file while the first session's download,
+    upload, append or restarted upload of that file is held in its j-th read / write."""
+    fam = []
+    L1 = [["connect", 1], ["send", 1, "USER u1"], ["send", 1, "PASS pw1"]]
+    L2 = [["connect", 2], ["send", 2, "USER u1"], ["send", 2, "PASS pw1"]]
+    looks = [[["send", 2, "MLST f"]], [["send", 2, "PASV"], ["dconnect", 2], ["send", 2, "LIST"], ["deof", 2]],
+             [["send", 2, "PASV"], ["dconnect", 2], ["send", 2, "MLSD"], ["deof", 2]], [["send", 2, "MLST f"], ["send", 2, "MLST f"]],
+             [["send", 2, "PASV"], ["dconnect", 2], ["send", 2, "RETR f"], ["deof", 2]],
+             [["send", 2, "PASV"], ["dconnect", 2], ["send", 2, "REST 2"], ["send", 2, "RETR f"], ["deof", 2]]]
+    for look in looks:
+        for j in (1, 2, 3):
+            fam.append(L1 + L2 + [["send", 1, "PASV"], ["dconnect", 1], ["gate", 1, "read", j], ["send", 1, "RETR f"]] + look +
+                       [["release", 1], ["deof", 1], ["send", 1, "PWD"]])
+            for rest in (None, 1, 3):
+                for verb in ("STOR f", "APPE f", "STOR new"):
+                    pre = [["send", 1, "REST %d" % rest]] if rest is not None else []
+                    fam.append(L1 + L2 + [["send", 1, "PASV"], ["dconnect", 1]] + pre + [["gate", 1, "write", j], ["send", 1, verb],
+                               ["dsend", 1, [21, 22, 23, 24, 25]]] + look + [["release", 1], ["deof", 1], ["send", 1, "PWD"], ["send", 2, "MLST f"]])
+    return fam
